@@ -55,7 +55,7 @@ BasePieces == <<
   [Piece(FALSE, "OBJECT", "Post") EXCEPT !.ifaces = <<"Node">>,
         !.fields = << Fd("id", Nn(Nm("ID")), <<>>), Fd("label", Nm("String"), <<ArD("up", Nm("Boolean"), L("bool", TRUE))>>), Fd("author", Nm("User"), <<>>) >>],
   [Piece(FALSE, "UNION", "Item") EXCEPT !.members = <<"User", "Post">>],
-  [Piece(FALSE, "DIRECTIVE", "tag") EXCEPT !.locs = <<"FIELD_DEFINITION", "OBJECT">>, !.args = << ArD("n", Nm("Int"), L("int", 1)), Ar("s", Li(Nm("String"))) >>],
+  [Piece(FALSE, "DIRECTIVE", "tag") EXCEPT !.locs = <<"FIELD_DEFINITION", "OBJECT", "SCHEMA">>, !.args = << ArD("n", Nm("Int"), L("int", 1)), Ar("s", Li(Nm("String"))) >>],
   [Piece(FALSE, "OBJECT", "Query") EXCEPT !.fields = << Fd("node", Nm("Node"), <<Ar("id", Nn(Nm("ID")))>>), Fd("items", Li(Nm("Item")), <<>>), Fd("me", Nm("User"), <<>>) >>],
   [Piece(FALSE, "OBJECT", "Mut") EXCEPT !.fields = << Fd("touch", Nm("Boolean"), <<Ar("when", Nm("DateTime"))>>) >>],
   [Piece(FALSE, "SCHEMA", "") EXCEPT !.roots = << <<"query", "Query">>, <<"mutation", "Mut">> >>]
@@ -218,6 +218,8 @@ Variations(ps) ==
   \* a schema that refuses introspection: @nonIntrospectable on the schema definition or on a directive-only `extend schema`
   \cup {[ps EXCEPT ![PIdx(ps, "", "SCHEMA")].tdirs = <<"nonIntrospectable">>] : x \in IF Introspectable(ps) THEN {1} ELSE {}}
   \cup {Append(ps, [ExtPiece("SCHEMA", "") EXCEPT !.tdirs = <<"nonIntrospectable">>]) : x \in IF Introspectable(ps) THEN {1} ELSE {}}
+  \* a directive-only `extend schema` (whatever is declared after it must still be applied)
+  \cup {Append(ps, [ExtPiece("SCHEMA", "") EXCEPT !.tdirs = <<"tag">>]) : x \in IF \E i \in Idxs(ps) : ps[i].kind = "SCHEMA" /\ "tag" \in SeqSet(ps[i].tdirs) THEN {} ELSE {1}}
   \* a directive applied to an `extend` piece (and to a base definition)
   \cup {Append(ps, [ExtPiece("OBJECT", "Query") EXCEPT !.fields = <<Fd("tagged", Nm("Int"), <<>>)>>, !.tdirs = <<"tag">>])}
   \cup {[ps EXCEPT ![PIdx(ps, "Post", "OBJECT")].tdirs = <<"tag">>]}
